@@ -118,6 +118,13 @@ def build(rng, strings, k):
     compb = (compb + [0] * 12)[:12]
     if k % 11 == 0:
         compb[5] = 0xC3
+    elif k % 11 in (3, 7):
+        # bytes that are not ASCII, anywhere in the field (also behind the fill): alone, or in groups that spell a
+        # character in some multi-byte encoding
+        seq = rng.choice([[0xC2, 0xB5], [0xE2, 0x82, 0xAC], [0xC3, 0xA9], [0xFF], [0x80], [0xF0, 0x9F, 0x98, 0x80],
+                          [0xA4], [0xFE, 0xFF]])
+        at = rng.choice([0, len(comp), max(0, len(comp) - 1), 12 - len(seq), rng.randrange(0, 13 - len(seq))])
+        compb[at:at + len(seq)] = seq
     body = []
     n = rng.choice([0, 1, 2, 3, 5, 9, 14])
     stop = rng.choice([None, None, 'size', 'oversized', 'cut'])
